@@ -163,7 +163,7 @@ Definition halg_of (sha3 : bool) : halg := if sha3 then SHA384 else SHA256.
 Definition ver_of (tls12 : bool) : tlsver := if tls12 then TLS12 else TLS11.
 
 Lemma max_kb : t_SSL_MAX_KEY_BLOCK_SIZE <= 4096.
-Proof. vm_compute. repeat constructor. Qed.
+Proof. apply Nat.leb_le. vm_compute. reflexivity. Qed.
 
 Lemma p_hash_len_sha256 : forall s seed L, length (p_hash hmac_sha256_spec 32 s seed L) = L.
 Proof. intros. unfold hmac_sha256_spec. apply p_hash_length; first [exact sha256_spec_len|lia]. Qed.
@@ -243,7 +243,7 @@ Lemma empty_hash_384 : s_sha384OfEmptyInput = sha384_spec []. Proof. vm_compute.
 Lemma sizes_ok : t_SSL_HS_MASTER_SIZE = 48 /\ t_TLS_HS_FINISHED_SIZE = 12 /\ t_SHA256_HASH_SIZE = 32 /\ t_SHA384_HASH_SIZE = 48 /\
                  t_SSL_RECORD_TYPE_APPLICATION_DATA = 23 /\ t_TLS_EXPLICIT_NONCE_LEN = 8 /\ t_TLS_AEAD_SEQNB_LEN = 8 /\
                  t_CHACHA20POLY1305_IETF_IV_FIXED_LENGTH = 12 /\ 48 <= t_SSL_MAX_KEY_BLOCK_SIZE.
-Proof. vm_compute. repeat split; repeat constructor. Qed.
+Proof. repeat split; try (vm_compute; reflexivity). apply Nat.leb_le. vm_compute. reflexivity. Qed.
 
 (* ================================================================== tls.c / hsHash.c *)
 Lemma hs_snapshot_eq : forall tls12 sha3 chunks,
